@@ -1,351 +1,68 @@
-"""C02 hunt (round 3) - run on the UNMODIFIED tree:
-    cd /tmp/wt/C02i && PYTHONPATH=/tmp/wt/C02i/src /venv/bin/python hunt_C02.py [scale]
+"""C02 hunt, round 4 (unmodified tree).
 
-Prints every violation of C02 it finds (input, library answer, oracle answer).  The oracle is
-packaging's evaluation of every single atom, combined with Python's and/or (multi-valued
-`extra` handled as membership), i.e. independent of the library's simplifier.
-Known families (1)-(20) are kept out of the generators.
+No new violation of C02 proper (soundness of `&` / `|` under evaluate) was found.
+The script prints the one neighbouring defect that turned up on a less used public
+entry point, and re-checks that it cannot be reached through `&` / `|`.
 
-Parts:
-  general   random and/or trees over all variable kinds, a & b / a | b (strings through parse_marker)
-  build     the same trees built through a random mix of constructors, .of() and operators in both
-            operand orders, with Any/Empty members, single-member compounds
-  versions  python_version / python_full_version / platform_release only, unusual literals
-            (spaces, leading zeros, 0! epoch, trailing .0, 1-4 component wildcards, literal on
-            the left incl. ~= and wildcards)
-  grouped   exhaustive: EqualityMarkerUnion / InequalityMultiMarker / atoms (==, !=, in, not in,
-            both operand orders) on one variable, all pairs, & and |, plus render + re-parse
-  roundtrip str(result) re-parsed, only()/exclude()/without_extras() on results must not raise
+Run:  cd /tmp/wt/C02j && PYTHONPATH=/tmp/wt/C02j/src /venv/bin/python hunt_C02.py
 """
-import random, sys, itertools, time
 from packaging.markers import Marker
-from dep_logic.markers import parse_marker, MarkerExpression, MultiMarker, MarkerUnion, AnyMarker, EmptyMarker
-from dep_logic.markers.single import EqualityMarkerUnion, InequalityMultiMarker
-from dep_logic.utils import OrderedSet
 
-STR_VARS = ["os_name", "sys_platform", "platform_machine", "platform_system", "implementation_name", "platform_python_implementation", "platform_version"]
-STR_VALS = ["nt", "posix", "linux", "win32", "darwin", "x86_64", "arm64", "", "n", "lin", "Linux", "linux2", "posix nt", "a b"]
-PV = ["3.7", "3.8", "3.9", "3.10", "3.11", "2.7", "3", "3.0", "4.0", "3.8.0", "3.08", "3.8.1", "3.*", "3.8.*", "0", "1!3.8", "3.8.0.0"]
-PFV = PV + ["3.8.5", "3.9.0", "3.9.1", "3.10.0", "3.8.10", "3.8.0.1", "3.8.5.*", "3.10.2", "4", "3.7.9"]
-VOPS = ["==", "!=", "<", "<=", ">", ">=", "~="]
-EXTRAS = ["a", "b", "A", "a_b", "a-b", "A.B", "c"]
+from dep_logic.markers import MarkerExpression, parse_marker
 
 
-def gen_atom(rng):
-    k = rng.random()
-    if k < 0.35:
-        name = rng.choice(STR_VARS)
-        op = rng.choice(["==", "!=", "in", "not in", "==", "!="])
-        val = rng.choice(STR_VALS)
-        rev = rng.random() < 0.25
-    elif k < 0.8:
-        name = rng.choice(["python_version", "python_full_version", "python_version", "python_full_version", "platform_release", "implementation_version"])
-        op = rng.choice(VOPS)
-        val = rng.choice(PV if name == "python_version" else PFV)
-        if op == "~=" and ("*" in val or "." not in val):
-            op = ">="
-        if "*" in val and op not in ("==", "!="):
-            op = "=="
-        rev = rng.random() < 0.2
-        if rev and (op == "~=" or "*" in val):
-            rev = False
-    elif k < 0.93:
-        name = "extra"
-        op = rng.choice(["==", "!="])
-        val = rng.choice(EXTRAS)
-        rev = rng.random() < 0.2
-    else:
-        name = rng.choice(["extras", "dependency_groups"])
-        op = rng.choice(["in", "not in"])
-        val = rng.choice(EXTRAS)
-        rev = True
-    return ("atom", name, op, val, rev)
-
-
-REFL = {"<": ">", "<=": ">=", ">": "<", ">=": "<=", "==": "==", "!=": "!=", "~=": "~=", "in": "in", "not in": "not in"}
-
-
-def atom_str(a):
-    _, name, op, val, rev = a
-    if rev:
-        return f'"{val}" {op} {name}'
-    return f'{name} {op} "{val}"'
-
-
-def gen_tree(rng, depth):
-    if depth == 0 or rng.random() < 0.3:
-        return gen_atom(rng)
-    n = rng.choice([2, 2, 3])
-    return (rng.choice(["and", "or"]), [gen_tree(rng, depth - 1) for _ in range(n)])
-
-
-def tree_str(t):
-    if t[0] == "atom":
-        return atom_str(t)
-    return "(" + f" {t[0]} ".join(tree_str(c) for c in t[1]) + ")"
-
-
-def atoms(t):
-    if t[0] == "atom":
-        yield t
-    else:
-        for c in t[1]:
-            yield from atoms(c)
-
-
-_cache = {}
-
-
-def eval_atom(a, env):
-    s = atom_str(a)
-    m = _cache.get(s)
-    if m is None:
-        m = _cache[s] = Marker(s)
-    if a[1] == "extra":
-        # multi-valued extra: == is membership, != non membership
-        ex = env["extra"]
-        from packaging.utils import canonicalize_name
-        v = canonicalize_name(a[3])
-        s_ = {canonicalize_name(x) for x in ex}
-        return (v in s_) if a[2] == "==" else (v not in s_)
-    e = dict(env)
-    e.pop("extra")
-    return m.evaluate(e, context="lock_file")
-
-
-def eval_tree(t, env):
-    if t[0] == "atom":
-        return eval_atom(t, env)
-    if t[0] == "and":
-        return all(eval_tree(c, env) for c in t[1])
-    return any(eval_tree(c, env) for c in t[1])
-
-
-def gen_envs(rng, ats, n):
-    fulls = ["3.7.0", "3.7.9", "3.8.0", "3.8.1", "3.8.5", "3.8.10", "3.9.0", "3.9.1", "3.10.0", "3.10.2", "3.11.4", "2.7.18", "3.0.0", "3.0.1", "4.0.0", "3.8.0.1", "0.0.0", "3.1.0", "1!3.8.0", "3.8", "3.9", "4.0.1"]
-    out = []
-    for _ in range(n):
-        full = rng.choice(fulls)
-        from packaging.version import Version
-        v = Version(full)
-        pv = (f"{v.epoch}!" if v.epoch else "") + ".".join(map(str, (v.release + (0,))[:2]))
-        env = {
-            "python_full_version": full,
-            "python_version": pv,
-            "platform_release": rng.choice(fulls),
-            "implementation_version": rng.choice(fulls),
-            "extra": set(rng.sample(EXTRAS, rng.randint(0, 3))),
-            "extras": set(rng.sample(EXTRAS, rng.randint(0, 3))),
-            "dependency_groups": set(rng.sample(EXTRAS, rng.randint(0, 3))),
-        }
-        for sv in STR_VARS:
-            env[sv] = rng.choice(STR_VALS)
-        out.append(env)
-    return out
-
-
-def lib_eval(m, env):
-    return m.evaluate(env, context="lock_file")
-
-
-def main(seed, n, depth=2):
-    rng = random.Random(seed)
-    bad = 0
-    t0 = time.time()
-    for i in range(n):
-        ta = gen_tree(rng, rng.randint(0, depth))
-        tb = gen_tree(rng, rng.randint(0, depth))
-        sa, sb = tree_str(ta), tree_str(tb)
-        import signal
-        class TO(Exception): pass
-        def h(*_): raise TO()
-        signal.signal(signal.SIGALRM, h)
-        signal.alarm(3)
-        try:
-            a = parse_marker(sa)
-            b = parse_marker(sb)
-            c = a & b
-            d = a | b
-            signal.alarm(0)
-        except TO:
-            continue
-        except Exception as e:
-            signal.alarm(0)
-            print("EXC", repr(e), sa, "||", sb)
-            bad += 1
-            continue
-        envs = gen_envs(rng, None, 12)
-        for env in envs:
-            ea, eb = eval_tree(ta, env), eval_tree(tb, env)
-            try:
-                got = (lib_eval(a, env), lib_eval(b, env), lib_eval(c, env), lib_eval(d, env))
-            except Exception as e:
-                print("EXC-eval", repr(e), sa, "||", sb)
-                bad += 1
-                break
-            exp = (ea, eb, ea and eb, ea or eb)
-            if got != exp or (c.is_empty() and exp[2]) or (d.is_any() and not exp[3]) or (c.is_any() and not exp[2]) or (d.is_empty() and exp[3]):
-                print("MISMATCH", i, sa, "||", sb, "\n   ", env, "\n   got", got, "exp", exp, "\n   a=", a, "| b=", b, "| and=", c, "| or=", d)
-                bad += 1
-                break
-        if bad > 5:
-            break
-    print("done", n, "bad", bad, "time", time.time() - t0)
-    return bad
-
-
-
-
-import signal
-
-
-class _TO(Exception):
-    pass
-
-
-def _h(*_):
-    raise _TO()
-
-
-signal.signal(signal.SIGALRM, _h)
-
-
-def build(t, rng):
-    if t[0] == "atom":
-        _, name, op, val, rev = t
-        if rng.random() < 0.5:
-            return parse_marker(atom_str(t))
-        return MarkerExpression(name, REFL[op] if rev else op, val, rev)
-    kids = [build(c, rng) for c in t[1]]
-    r = rng.random()
-    cls, ident, fold = (MultiMarker, AnyMarker(), lambda x, y: x & y) if t[0] == "and" else (MarkerUnion, EmptyMarker(), lambda x, y: x | y)
-    if r < 0.3:
-        return cls(*kids)
-    if r < 0.5:
-        return cls.of(*kids)
-    if r < 0.6:
-        return cls(*kids, ident)
-    rng.shuffle(kids)
-    out = kids[0]
-    for k in kids[1:]:
-        out = fold(out, k) if rng.random() < 0.5 else fold(k, out)
-    return out
-
-
-def run_random(label, seed, n, depth, use_build=False, roundtrip=False):
-    rng = random.Random(seed)
-    bad = skipped = 0
-    for i in range(n):
-        ta = gen_tree(rng, rng.randint(0, depth))
-        tb = gen_tree(rng, rng.randint(0, depth))
-        sa, sb = tree_str(ta), tree_str(tb)
-        signal.alarm(3)
-        try:
-            if use_build:
-                a, b = build(ta, rng), build(tb, rng)
-            else:
-                a, b = parse_marker(sa), parse_marker(sb)
-            res = [(a & b, "and"), (a | b, "or"), (b & a, "and"), (b | a, "or")]
-            if roundtrip:
-                extra_res = []
-                for m, k in res:
-                    if not (m.is_any() or m.is_empty()):
-                        extra_res.append((parse_marker(str(m)), k))
-                    str(m.without_extras()); str(m.only("python_version", "os_name")); str(m.exclude("python_full_version"))
-                res += extra_res
-            signal.alarm(0)
-        except _TO:
-            skipped += 1  # exponential blow-up: known family (9)
-            continue
-        except Exception as e:
-            signal.alarm(0)
-            print(f"[{label}] EXCEPTION {type(e).__name__}: {e}\n    a = {sa}\n    b = {sb}")
-            bad += 1
-            continue
-        for env in gen_envs(rng, None, 10):
-            ea, eb = eval_tree(ta, env), eval_tree(tb, env)
-            try:
-                ok = lib_eval(a, env) == ea and lib_eval(b, env) == eb
-                for m, k in res:
-                    exp = (ea and eb) if k == "and" else (ea or eb)
-                    ok = ok and lib_eval(m, env) == exp and not (m.is_empty() and exp) and not (m.is_any() and not exp)
-            except Exception as e:
-                print(f"[{label}] EXCEPTION in evaluate {type(e).__name__}: {e}\n    a = {sa}\n    b = {sb}")
-                bad += 1
-                break
-            if not ok:
-                print(f"[{label}] VIOLATION\n    a = {sa}\n    b = {sb}\n    env = {env}\n    oracle: a={ea} b={eb}\n    library: a={lib_eval(a, env)} b={lib_eval(b, env)} " + " ".join(f"{k}:<{m}>={lib_eval(m, env)}" for m, k in res))
-                bad += 1
-                break
-    print(f"[{label}] {n} pairs, {skipped} skipped for run time, {bad} violations")
-    return bad
-
-
-def run_versions(seed, n, depth):
-    global PV, PFV, gen_atom
-    old = PV, PFV, gen_atom
-    PV = ["3.8", "3.9", "3.10", "3", "3.0", "3.8.0", " 3.8", "3.8 ", "03.08", "3.8.*", "3.*", "3.8.0.*", "0!3.8", "3.8.0.0", "3.9.0", "3.08.0", "4", "2.7", "3.8.1", "3.7", "0!3.*", "3.8.00", "3.9.*"]
-    PFV = PV + ["3.8.5", "3.9.1", "3.8.5.0", "3.8.10", "0!3.8.5", "3.8.5.*", "3.8.0.1", "3.9.0.0", "3.10.0", "4.0", "4.0.0", "3.8.05"]
-
-    def gen_atom(rng):
-        name = rng.choice(["python_version", "python_full_version", "python_version", "python_full_version", "platform_release"])
-        op = rng.choice(VOPS)
-        val = rng.choice(PV if name == "python_version" else PFV)
-        if op == "~=" and ("*" in val or "." not in val.strip()):
-            op = ">="
-        if "*" in val and op not in ("==", "!="):
-            op = "=="
-        return ("atom", name, op, val, rng.random() < 0.3)
-
+def finding_from_specifier_contains():
+    """MarkerExpression.from_specifier(m.name, m.specifier) for a literal-on-the-left
+    `in` / `not in` atom on a string variable returns an atom whose operator is the
+    specifier-internal word "contains": it renders as text no parser accepts and
+    raises UndefinedComparison when evaluated.  (from_specifier is documented as the
+    way to re-render a set view as an atom; for every other string atom the round
+    trip gives an equivalent atom.)"""
+    text = '"lin" in sys_platform'
+    env = {"sys_platform": "linux"}
+    m = parse_marker(text)
+    want = Marker(text).evaluate(env)
+    back = MarkerExpression.from_specifier(m.name, m.specifier)
+    print("input atom           :", text)
+    print("its specifier        :", repr(m.specifier))
+    print("from_specifier gives :", repr(back), "(op=%r)" % back.op)
     try:
-        return run_random("versions", seed, n, depth)
-    finally:
-        PV, PFV, gen_atom = old
+        got = back.evaluate(env)
+    except Exception as e:  # noqa: BLE001
+        got = f"raises {type(e).__name__}: {e}"
+    print("library evaluate     :", got)
+    print("oracle (packaging)   :", want)
+    try:
+        Marker(str(back))
+        reparse = "parses"
+    except Exception as e:  # noqa: BLE001
+        reparse = f"does not parse ({type(e).__name__})"
+    print("str(result)          :", str(back), "->", reparse)
 
-
-def run_grouped():
-    from dep_logic.utils import OrderedSet
-    vals = ["a", "b", "ab", "", "c"]
-    envs = vals + ["abc", "d", "a b"]
-    objs = []
-    for r in (2, 3):
-        for vs in itertools.permutations(vals, r):
-            if r == 3 and vs[0] > vs[1]:
-                continue
-            objs.append((EqualityMarkerUnion("os_name", OrderedSet(vs)), (lambda x, vs=vs: x in vs), f"== any of {vs}"))
-            objs.append((InequalityMultiMarker("os_name", OrderedSet(vs)), (lambda x, vs=vs: x not in vs), f"!= all of {vs}"))
-    for v in vals + ["a b", "abc"]:
-        for op in ("==", "!=", "in", "not in"):
-            for rev in (False, True):
-                s = f'"{v}" {op} os_name' if rev else f'os_name {op} "{v}"'
-                pk = Marker(s)
-                objs.append((MarkerExpression("os_name", op, v, rev), (lambda x, pk=pk: pk.evaluate({"os_name": x})), s))
-    bad = n = 0
-    for (a, fa, la), (b, fb, lb) in itertools.product(objs, repeat=2):
-        n += 1
-        c, d = a & b, a | b
-        for x in envs:
-            env = {"os_name": x}
-            ea, eb = fa(x), fb(x)
-            got = (a.evaluate(env), b.evaluate(env), c.evaluate(env), d.evaluate(env))
-            exp = (ea, eb, ea and eb, ea or eb)
-            rt = [parse_marker(str(m)).evaluate(env) if not (m.is_any() or m.is_empty()) else m.evaluate(env) for m in (c, d)]
-            if got != exp or (c.is_empty() and exp[2]) or (d.is_any() and not exp[3]) or rt != [exp[2], exp[3]]:
-                print(f"[grouped] VIOLATION a = <{la}>  b = <{lb}>  os_name = {x!r}\n    library: a & b = <{c}> -> {got[2]}, a | b = <{d}> -> {got[3]}, re-parsed -> {rt}\n    oracle: a={ea} b={eb} and={exp[2]} or={exp[3]}")
-                bad += 1
-                break
-    print(f"[grouped] {n} pairs x {len(envs)} values, {bad} violations")
-    return bad
+    # not reachable through & / |: a merge of two generic set views is always one of
+    # the operands, Any or Empty, so from_specifier is never handed a "contains" view
+    others = [
+        'sys_platform == "linux"', 'sys_platform != "linux"', 'sys_platform in "linux darwin"',
+        'sys_platform not in "linux darwin"', '"nux" in sys_platform', '"nux" not in sys_platform',
+        'sys_platform == "lin"', 'sys_platform != "lin"', '"lin" not in sys_platform',
+        'sys_platform == "linux" or sys_platform == "win32"',
+        'sys_platform != "linux" and sys_platform != "win32"',
+    ]
+    envs = [{"sys_platform": v} for v in ("linux", "lin", "win32", "darwin", "", "nux")]
+    bad = 0
+    for o in others:
+        for x, y in ((text, o), (o, text)):
+            a, b = parse_marker(x), parse_marker(y)
+            for e in envs:
+                oa, ob = Marker(x).evaluate(e), Marker(y).evaluate(e)
+                if (a & b).evaluate(e) != (oa and ob) or (a | b).evaluate(e) != (oa or ob):
+                    bad += 1
+                    print("  C02 VIOLATION", x, "|&", y, e)
+    print("reachable through & or | :", "yes" if bad else "no (checked %d operand pairs)" % (2 * len(others)))
 
 
 if __name__ == "__main__":
-    scale = float(sys.argv[1]) if len(sys.argv) > 1 else 1.0
-    total = 0
-    total += run_grouped()
-    total += run_random("general", 101, int(6000 * scale), 1)
-    total += run_random("general-deep", 102, int(300 * scale), 2)
-    total += run_random("build", 103, int(6000 * scale), 1, use_build=True)
-    total += run_random("roundtrip", 104, int(3000 * scale), 1, roundtrip=True)
-    total += run_versions(105, int(8000 * scale), 1)
-    total += run_versions(106, int(2000 * scale), 2)
-    print("NEW violations found:" if total else "no new violation found;", total)
+    print("== side finding (from_specifier, not C02 proper) ==")
+    finding_from_specifier_contains()
+    print()
+    print("== C02 proper: no new violation; see the final report for the areas and case counts ==")
